@@ -6,6 +6,9 @@ export GOFLAGS=-mod=mod GOPROXY=off GOSUMDB=off GOTOOLCHAIN=local
 mkdir -p ../.work ../evidence ../replays
 # go.sum of the harness = go.sum of /repo (+ rapid's own lines kept in go.sum.extra)
 if [ -f /repo/go.sum ]; then cat /repo/go.sum go.sum.extra 2>/dev/null | sort -u > go.sum; fi
-go test -c -vet=off -tags verif -o ../.work/setup-props.test ./props
-rm -f ../.work/setup-props.test
+for d in c[0-9][0-9]*; do
+  [ -d "$d" ] || continue
+  go test -c -vet=off -tags verif -o ../.work/setup-$d.test ./$d || echo "setup: $d does not build (its check will report inconclusive)"
+  rm -f ../.work/setup-$d.test
+done
 echo "setup ok"
